@@ -111,6 +111,9 @@ fn outcome_label(case: &Case) -> String {
 
 pub fn run(ctx: &Ctx) -> Report {
     crate::env::set_log_mode(crate::env::LOG_OFF);
+    // this property's statement says nothing about the key provider: judge outcomes only
+    crate::e2e::set_judge_provider(false);
+    crate::e2e::set_judge_kind(false);
     let thorough = ctx.tier.thorough();
     let lists = value_lists();
     let n_lists = lists.len() as u64;
